@@ -55,7 +55,7 @@ func LoadEngine(repo string, patterns []string, overlay map[string][]byte) (*Eng
 	if len(errs) > 0 {
 		return nil, fmt.Errorf("package errors: %s", strings.Join(errs, "; "))
 	}
-	prog, spkgs := ssautil.Packages(pkgs, ssa.BuilderMode(0))
+	prog, spkgs := ssautil.Packages(pkgs, ssa.GlobalDebug)
 	prog.Build()
 	e := &Engine{repo: repo, pkgs: pkgs, prog: prog, spkgs: spkgs, sorts: NewSorts(), contracts: NewContractSet(),
 		compSeen: map[string]Sort{}, effMemo: map[string]*effects{}, inlineLimit: 60, fnByKey: map[string]*ssa.Function{}}
